@@ -361,3 +361,7 @@ def run(chk):
     rule_namespace_resolution(chk, "C01.8")
     rule_default_filling(chk, "C01.9")
     X.rule_sequence_remainder(chk, "C01.10")
+    from .c02 import rule_token_canonicalisation
+    rule_token_canonicalisation(chk, "C01.11")
+    X.rule_to_list_raw(chk, "C01.12")
+    X.rule_predecessor_keeps_absolute(chk, "C01.13")
